@@ -56,6 +56,23 @@ def special(ctx, merged_unused):
                 ctx["inconclusive"].append(f"racing process {job} hit the watchdog")
             else:
                 ctx["violations"].append({"kind": "abort", "message": f"racing process (seed {job[0]}, threads {job[3]}, delay {job[4]} us) died: {r}", "case": {"seed": job[0], "threads": job[3]}, "known": None})
+    # steady-state hammer: many contexts on the same few days, every answer compared with the
+    # sequential one (shared state between evaluations of different contexts)
+    hammer_jobs = [(4096, 16, 120_000), (64, 16, 120_000), (4096, 4, 300_000), (1024, 32, 60_000)]
+    if tier != "quick":
+        hammer_jobs = [(p_, t_, int(i_ * 4 * ctx["scale"]) or 1000) for rep_ in range(6) for (p_, t_, i_) in hammer_jobs]
+    for hi, (places, threads, iters) in enumerate(hammer_jobs):
+        out = os.path.join(wdir, f"hammer{hi}.json")
+        cmd = [binary, "C18", "--seed", str(seed * 1000 + hi), "--extra", "mode=hammer", "--extra", f"places={places}", "--extra", f"threads={threads}", "--extra", f"iters={iters}", "--out", out]
+        try:
+            p = _run(cmd, timeout=1800)
+        except subprocess.TimeoutExpired:
+            ctx["inconclusive"].append(f"hammer process {hi} hit the watchdog")
+            continue
+        if not os.path.exists(out):
+            ctx["violations"].append({"kind": "abort", "message": f"hammer process (places {places}, threads {threads}) died: {p.stdout[-600:]}", "case": {"seed": seed * 1000 + hi, "mode": "hammer"}, "known": None})
+            continue
+        reports.append(json.load(open(out)))
     merged = ctx["merge"](reports)
     ctx["violations"] += merged["violations"]
     obs = dict(sorted(merged["counters"].items()))
@@ -73,6 +90,8 @@ def special(ctx, merged_unused):
     contended = sum(v for k, v in obs.items() if k.endswith("runs_with_contended_first_use"))
     if contended < max(1, len(jobs) // 4):
         ctx["inconclusive"].append(f"first use was contended in only {contended} runs")
+    if obs.get("hammer_concurrent_evaluations", 0) < 100_000 * min(1.0, ctx["scale"]):
+        ctx["inconclusive"].append("the steady-state hammer evaluated too little")
     if obs.get("concurrent_evaluations", 0) < 1000 * ctx["scale"]:
         ctx["inconclusive"].append("too few concurrent evaluations")
 
